@@ -37,6 +37,15 @@ CHANGE = {
     "C17-5": ("IndexShiftedArray3D::get drops the '+ size()' before the modulo: negative shifts clamp instead of wrapping", "negative shift component, query in the first |shift| cells"),
     "C20-5": ("single-channel writeImage takes component N_COMP-1 (= 0) instead of PIXEL_COMP-1: writePGM emits the red byte", "PGM, pixel whose low byte differs from its high byte"),
     "C19-2": ("Observable::removeObserver erases from the found element to the end (find instead of remove)", ">= 2 observers, an earlier one destroyed, then the observable destroyed before a later one"),
+    "C10-6": ("FlatMap::erase as values.erase(remove_if(...)) with the single-iterator overload: erasing an absent key erases end() (drops the last pair / UB)", "erase of a key that is absent at that moment"),
+    "C12-6": ("TransactionalValue: newValue made atomic and update() clears it with exchange() before taking the mutex (flag consumed outside the critical section; no data race)", "consumer update() inside a second assignment while the first flag is unconsumed, then another update()"),
+    "C13-6": ("numTaskingThreads() returns a value cached in the handle constructor; under TBB the old global_control is still alive then (minimum of live controls)", "TBB back end, re-initialisation that raises the count"),
+    "C15-6": ("BufferReader::read guard rewritten with end(): a zero-length read exactly at the end throws", "stream ending in an empty string"),
+    "C16-6": ("xml makeString returns std::string(begin,end) and drops the begin>end guard: std::length_error escapes instead of std::runtime_error", "content of blanks followed by \\v or \\f only (skipWhites does not skip them, isspace trims them)"),
+    "C17-6": ("longIndex computes the slice stride dims.x*dims.y in 32-bit int", "x*y >= 2^31 and z >= 1"),
+    "C18-6": ("FileName::ext()/dropExt() treat a leading dot of the last component as 'hidden file, no extension' while name()/setExt() keep the old rule", "last component starts with '.' and has no other dot"),
+    "C19-6": ("TimeStamp::nextValue() as ++global; return global; (two atomic operations): two threads can receive the same stamp", "two threads inside nextValue(), one increment between the other's increment and read"),
+    "C20-6": ("writeImage row buffer became a grow-only static thread_local vector and fwrite uses out.size(): rows written at the widest width seen so far", "same thread writes a narrower image after a wider one in the same format"),
     "C20-2": ("writePFM<vec3fa> walks the pixels with a stride of 3 floats instead of 4", "vec3fa images wider than one pixel"),
 }
 
@@ -52,7 +61,7 @@ def main():
         patch = os.path.join(d, "patch.diff")
         mp = os.path.join(d, "meta.json")
         meta = json.load(open(mp)) if os.path.exists(mp) else {"property": pid, "author": "independent sub-agent given only the property text and a scratch worktree",
-                                                              "confirmed": {"how": "scratch worktree: cmake+ninja build, ctest, rkcommon_test_suite with the patch applied; demo.cpp (ASan/UBSan) fails with and passes without the patch", "result": "build=0 ctest=0 suite=0 demo_with_patch=1 demo_without_patch=0"}}
+                                                              "confirmed": {"how": "scratch worktree: cmake+ninja build, ctest, rkcommon_test_suite with the patch applied; demo.cpp (ASan/UBSan) fails with and passes without the patch", "result": "build=0 ctest=0 (16/16) demo_with_patch=1 demo_without_patch=0"}}
         if sid in CHANGE:
             meta["change"], meta["needs_to_manifest"] = CHANGE[sid]
         r = subprocess.run(["git", "-C", REPO, "apply", patch], capture_output=True, text=True)
